@@ -452,9 +452,11 @@ class FailuresInnate(CurveDriver):
         ["P", ["compute_tip_position", "nope"], {}, False],
         ["P", P1, {"correct_tip_offset": {"method": "bogus"}}, False],
         ["P", ["correct_force_slope"], {}, False],
+        ["P", [], {}, False],                 # back to the recorded data
         F(),
         F(weight_cp=0),
         F(preprocessing=P1),
+        F(preprocessing=[]),
         F(preprocessing=["nope"]),
         F(range_type="bogus"),
     ]
